@@ -13,3 +13,22 @@ claim("C20",
 na("C16", "arithmetic identity over all 2^32/2^64 values (shifts, masks, thresholds): its truth is in the numbers, "
           "not in the shape of the code; any shape rule would be a frozen picture of today's source; needs exhaustive "
           "evaluation or a bit-vector proof, both other technique families (DESIGN section 3 C16 / section 5)")
+
+claim("C08",
+      "abstract path evaluation (decision table) of the add gate, mod/ref purity of the refusal path, typestate of the remembered key, constant evaluation of open(2) flags",
+      "Decides completely: the refusal path performs no caller-visible store (mod/ref) and the create flags contain "
+      "O_CREAT|O_EXCL with the failed-open edge returning NULL untouched. Decides as decision tables over {LT,EQ,GT}: "
+      "an add proceeds iff no entry yet or sign(key,last accepted key)=GT, and on every success path the remembered key "
+      "ends as exactly the key added. What remains undecided is only the byte semantics of the comparison function (C02.R3).",
+      "Trusts clang's constant evaluation of the flag macros for this platform, the mod/ref summaries (field-insensitive "
+      "aliasing by access path), and that ubuf_reset/ubuf_clip(0)/ubuf_append have the obvious content semantics.")
+
+claim("C10",
+      "sibling agreement of emit/parse sequences against the T-meta table (abstract path evaluation), who-may-write + once-per-path effect rules for the counters",
+      "Decides completely the field-order clause: the trailer layout computed from metadata_write (offsets, zero padding, magic), "
+      "from metadata_read (offsets, magic->version map), the ten accessors and mtbl_info's labels all equal the format table. "
+      "Decides per path that each counter is bumped exactly once per accepted entry / written block with the right operand, never on a "
+      "refusal, that index offset/size are recorded after the join and before the trailer, and that no other function stores to them. "
+      "Arithmetic truth of totals on real files is not decided.",
+      "Trusts the T-meta table (spec/t_meta.json, written from the format documentation), the constant folding of offsets in the "
+      "abstract evaluator, and C14 for the absence of races on the handler-updated counters.")
